@@ -66,13 +66,14 @@ static void one_case(Rng& r, const std::string& tier, int minorder) {
   bool thorough = tier == "thorough";
   p.nd = w100 < 40 ? 1 : w100 < 78 ? 2 : (thorough && w100 >= 93) ? 4 : 3;
   int maxN = thorough ? (r.coin(1, 6) ? 120 : 70) : (p.nd == 1 ? 14 : p.nd == 2 ? 36 : 40);
+  int kstyle = r.range(0, 9) < 8 ? 1 : 2;   // 1 irregular dyadic, 2 arbitrary mantissas (exact arithmetic gets large: small problems only)
+  if (kstyle == 2) maxN = std::min(maxN, thorough ? 24 : 12);
   p.ord.resize(p.nd);
   for (auto& o : p.ord) o = r.range(minorder, 4);
   std::vector<int> extra(p.nd);
   for (auto& e : extra) e = r.range(0, p.nd == 1 ? 8 : 3);
   auto count = [&]() { long n = 1; for (int i = 0; i < p.nd; i++) n *= p.ord[i] + 1 + extra[i]; return n; };
   while (count() > maxN) { int i = r.range(0, p.nd - 1); if (extra[i] > 0) extra[i]--; else if ((int)p.ord[i] > minorder) p.ord[i]--; else { bool any = false; for (int j = 0; j < p.nd; j++) if (extra[j] > 0 || (int)p.ord[j] > minorder) any = true; if (!any) break; } }
-  int kstyle = r.range(0, 9) < 7 ? 1 : 2;   // 1 irregular dyadic, 2 arbitrary mantissas
   stats["knotstyle_" + std::to_string(kstyle)]++;
   stats["ndim_" + std::to_string(p.nd)]++;
   int cls = r.range(0, 9);   // 0-4 random data, 5-6 spline data with lambda 0, 7-9 polynomial data below the penalty order
